@@ -223,7 +223,7 @@ def run(ctx):
     for g, sites in [(f, errs.get('ActionsNotEqual', []))]:
         for gg, bi in sites:
             cs = gg.conds(bi)
-            if gg is f and single_arm(bi) and any(c['kind'] == 'variant' and c['variants'] == ['Occupied'] for c in cs) and any(c['kind'] == 'Ne' and c['truth'] is True for c in cs):
+            if gg is f and single_arm(bi) and any(c['kind'] == 'variant' and c['variants'] == ['Occupied'] for c in cs) and any((c['kind'] == 'Ne' and c['truth'] is True) or (c['kind'] == 'Eq' and c['truth'] is False) for c in cs):
                 occ_ne = True
     ctx.verdict(occ_ne, rule, '%s:same-action:%s' % (rule, top), 'a re-met single-action infoset with a different action is rejected (ActionsNotEqual on the unequal edge)', '', 'found: %s' % occ_ne)
 
